@@ -31,13 +31,22 @@ LEVEL_TEXT = ('Metamorphic relations over generated tables/frames and all small 
 LEVEL_NOTE = 'Trusted: the snapshot function; reference table walker; Hypothesis.'
 
 
+_KEEP = []
+
+
 def snapshot(v, depth=0):
+    """identity-aware structure of a value.  Every container seen is also kept alive in
+    _KEEP for the duration of the case, so that a replaced container cannot be given the
+    id of the one it replaced (CPython recycles addresses)."""
     t = type(v)
     if t is dict:
+        _KEEP.append(v)
         return ('dict', id(v), tuple((k, snapshot(x)) for k, x in v.items()))
     if t is list:
+        _KEEP.append(v)
         return ('list', id(v), tuple(snapshot(x) for x in v))
     if t is bytearray:
+        _KEEP.append(v)
         return ('bytearray', id(v), bytes(v))
     return (t.__name__, canon.canon(v))
 
@@ -87,6 +96,7 @@ def verify_table(table, other):
 
 
 def check_table(case):
+    del _KEEP[:]
     table = case['v']
     other = permute(table, case['perm'], [0])
     verify_table(table, other)
@@ -152,6 +162,7 @@ def frame_snapshot(obj):
     for n in names:
         v = getattr(obj, n, None)
         if hasattr(v, '__slots__') and not isinstance(v, (str, bytes)):
+            _KEEP.append(v)
             out.append((n, id(v), frame_snapshot(v)))
         else:
             out.append((n, snapshot(v)))
@@ -159,10 +170,14 @@ def frame_snapshot(obj):
 
 
 def check_frame(case):
+    del _KEEP[:]
     obj = call('construct', make_frame, case)
     before = frame_snapshot(obj)
     ch = case['ch']
     a = call('marshal', frame.marshal, obj, ch)
+    if frame_snapshot(obj) != before:
+        raise Violation('frame-mutated', 'encoding changed the %s frame object' %
+                        case['kind'])
     b = call('marshal', frame.marshal, obj, ch)
     if a != b:
         raise Violation('frame-nondeterministic', 'two encodings of the same %s '
